@@ -769,7 +769,7 @@ def Core_Drop : String :=
   "Drop() { Loop(this, CallImpl<false>(init(init(cast(init()))))) }"
 
 def Core_Impl : String :=
-  "Impl(caller) { var async_done = lambda{ var AsyncShared = (kAsync == Shared); var core = DownCast((*_self.caller)); return Done<SymmetricTransfer,true>(core.MoveOrConst()) }; ifc (IsRun(Type)) { return async_done() } else { ifc ((kAsync != None)) { if (operator!=(_self.unwrapping, 0)) { return async_done() } }; (_self.caller = (&caller)); DownCast<BaseCore>(caller).TransferExecutorTo<IsFromShared(Type)>((*this)); ifc ((IsFromShared(Type) && (IsCall(Type) || (kAsync != None)))) { caller.IncRef() }; ifc (IsCall(Type)) { _executor.Submit((*this)); return Noop() } else { var core = DownCast(caller); return CallImpl<SymmetricTransfer>(core.MoveOrConst()) } } }"
+  "Impl(caller) { var async_done = lambda{ var AsyncShared = (kAsync == Shared); var core = DownCast((*_self.caller)); return Done<SymmetricTransfer,true>(core.MoveOrConst()) }; ifc (IsRun(Type)) { ifc ((kAsync != None)) { if (operator!=(_self.caller, nullptr)) { return async_done() } }; _executor.Submit((*this)); return Noop() } else { ifc ((kAsync != None)) { if (operator!=(_self.unwrapping, 0)) { return async_done() } }; (_self.caller = (&caller)); DownCast<BaseCore>(caller).TransferExecutorTo<IsFromShared(Type)>((*this)); ifc ((IsFromShared(Type) && (IsCall(Type) || (kAsync != None)))) { caller.IncRef() }; ifc (IsCall(Type)) { _executor.Submit((*this)); return Noop() } else { var core = DownCast(caller); return CallImpl<SymmetricTransfer>(core.MoveOrConst()) } } }"
 
 def Core_Here : String :=
   "Here(caller) { return Impl<false>(caller) }"
@@ -828,6 +828,9 @@ def PromiseCore_Call : String :=
 def PromiseCore_Drop : String :=
   "Drop() { _func.storage.~()(); Store(cast(init())); Loop(this, SetResult()) }"
 
+def PromiseCore_Here : String :=
+  "Here(_) { _executor.Submit((*this)); return nullptr }"
+
 def ReadyCore_ctor : String :=
   "ReadyCore<V, E>(args) { Store(pack(forward(args))) }"
 
@@ -862,7 +865,7 @@ def Task_Start : String :=
   "Start(head, e) { (head = MoveToCaller(head)); operator=(head._executor, (&e)); e.Submit((*head)) } || Start(head) { (head = MoveToCaller(head)); operator->(head._executor).Submit((*head)) }"
 
 def Task_dtor : String :=
-  "~Task<V, E>() { if (Valid()) { move((*this)).Cancel() } }"
+  "~Task<V, E>() { if ((Valid() && (!Ready()))) { move((*this)).Cancel() } }"
 
 def Task_ThenOn : String :=
   "Then(e, f) { var CoreT = operator|(operator|(ToUnique, Call), Lazy); return SetCallback(_core, (&e), forward(f)) }"
@@ -1111,7 +1114,7 @@ def PromiseType_Drop : String :=
   "Drop() { Store(cast(init())); SetResult().resume() }"
 
 def PromiseType_Impl : String :=
-  "Impl(caller) { (_executor = move(DownCast(caller)._executor)) }"
+  "Impl(caller) { (_executor = DownCast(caller)._executor) }"
 
 def PromiseType_Here : String :=
   "Here(caller) { Impl(caller); Call(); return nullptr }"
